@@ -14,32 +14,77 @@ def step_label(s):
     if s["a"] != "Recv":
         return s["a"]
     d = s["d"]
-    return "Recv(%s,%s,%s,%s,%s,%s,%s)" % (d["cls"], d["auth"], "uc" if d["uc"] else "-", d["src"], d["tx"], d["ra"], d["un"])
+    return "Recv(%s,%s,%s,%s,%s,%s,%s,%s,%s)" % (d["cls"], d.get("meth", "binding"), d["auth"], "uc" if d["uc"] else "-", d["src"],
+                                              d["tx"], d["ra"], d["un"], "pr" if d.get("pr") else "-")
 
 
-def pack(behs, rnd, keep_other):
-    """Transition tour -> replayable behaviours.  Steps that leave the model state unchanged (every
-    forged datagram, role conflicts, unknown transactions) are self-loops: all of one state go into one
-    behaviour behind the shortest path to that state; the rest are kept as maximal behaviours.
-    keep_other < 1 (quick tier): the loops with a wrong-key or truncated integrity code are sampled,
-    those without integrity code and the valid no-effect ones are all kept."""
-    loops, eff = {}, []
-    for b in behs:
-        if b["loop"]:
-            loops.setdefault((b["ctl"], json.dumps(b["steps"][:-1])), []).append(b["steps"][-1])
+def _canon(d):
+    return json.dumps(d, sort_keys=True)
+
+
+def select_loops(loops, rnd, mode):
+    """Which of the no-effect datagrams of one state are replayed there.
+    "all": the full alphabet.  Otherwise a covering sample: every combination of the primary fields
+    (class x method x integrity [x source for the binding method]) at least once -- twice when the integrity
+    code is absent --, the secondary fields (USE-CANDIDATE, role attribute, PRIORITY, USERNAME, transaction)
+    drawn at random, so that over the hundreds of states every value of every field meets every primary
+    combination; plus `mode` of the authenticated no-effect ones."""
+    if mode == "all":
+        return list(loops)
+    groups = {}
+    for d in loops:
+        if d["auth"] == "valid":
+            groups.setdefault(("valid",), []).append(d)
         else:
-            eff.append({"ctl": b["ctl"], "steps": b["steps"]})
-    packed = []
-    nloops = 0
-    for (ctl, path), ls in sorted(loops.items(), key=lambda kv: (len(kv[0][1]), kv[0][1], kv[0][0])):
-        keep = [s for s in ls if s["a"] != "Recv" or s["d"]["auth"] in ("valid", "none") or rnd.random() < keep_other]
+            groups.setdefault((d["cls"], d["meth"], d["auth"], d["src"] if d["meth"] == "binding" else "*"), []).append(d)
+    keep = []
+    for k in sorted(groups):
+        g = groups[k]
+        n = mode if k == ("valid",) else (2 if k[2] == "none" and k[1] == "binding" else 1)
+        keep += rnd.sample(g, min(n, len(g)))
+    return keep
+
+
+def pack(behs, rnd, mode, frontier=False):
+    """Transition tour -> replayable behaviours.  TLC exported the state-changing transitions (with the
+    identity of source and target state) and the datagram alphabet; every datagram of the alphabet that is
+    not among the exported steps out of a state is a self-loop of that state (Recv is always enabled).  The
+    self-loops of one state -- every forged datagram, role conflicts, unknown transactions, indications, other
+    methods -- go into one behaviour behind the shortest path to that state; the state-changing transitions
+    are kept as maximal behaviours."""
+    alphabet = {b["ctl"]: b["alphabet"] for b in behs if "alphabet" in b}
+    trans = [b for b in behs if "steps" in b]
+    path, pend, ctl_of, effd = {}, {}, {}, {}
+    for b in trans:                                   # BFS order: the first path to a state is a shortest one
+        if len(b["steps"]) == 1 and b["from"] not in path:
+            path[b["from"]], pend[b["from"]], ctl_of[b["from"]] = [], False, b["ctl"]
+        if b["to"] not in path and not b["over"]:       # (over: one step beyond the model's bounds, not a state of it)
+            path[b["to"]], pend[b["to"]], ctl_of[b["to"]] = b["steps"], b["pend"], b["ctl"]
+        last = b["steps"][-1]
+        if last["a"] == "Recv":
+            effd.setdefault(b["from"], set()).add(_canon(last["d"]))
+    packed, nloops, nall = [], 0, 0
+    for sid in sorted(path, key=lambda k: (len(path[k]), _canon(path[k]), ctl_of[k])):
+        if pend[sid]:
+            continue                                  # only the timer tick may follow (IceGen!Urgent)
+        loops = [d for d in alphabet[ctl_of[sid]] if _canon(d) not in effd.get(sid, ())]
+        nall += len(loops)
+        keep = select_loops(loops, rnd, mode)
+        rnd.shuffle(keep)
         nloops += len(keep)
-        packed.append({"ctl": ctl, "steps": json.loads(path) + keep, "prefix": len(json.loads(path))})
-    mx = vf.maximal_behaviours(eff)
-    return packed, mx, nloops
+        packed.append({"ctl": ctl_of[sid], "steps": path[sid] + [{"a": "Recv", "d": d} for d in keep], "prefix": len(path[sid])})
+    # (frontier: also the transitions that leave the model's bounds by one step)
+    mx = vf.maximal_behaviours([{"ctl": b["ctl"], "steps": b["steps"]} for b in trans if frontier or not b["over"]])
+    return packed, mx, nloops, {"states": len(path), "alphabet": len(next(iter(alphabet.values()))), "no_effect_steps_in_model": nall,
+                                "state_changing_transitions": len(trans)}
 
 
 FORGED = [
+    {"cls": "indication", "auth": "none", "uc": True, "ra": "controlling"},
+    {"cls": "indication", "auth": "none", "uc": True, "ra": "none"},
+    {"cls": "indication", "auth": "none", "uc": False, "ra": "controlled"},
+    {"cls": "indication", "auth": "wrong", "uc": True, "ra": "none"},
+    {"cls": "request", "meth": "other", "auth": "none", "uc": True, "ra": "none"},
     {"cls": "request", "auth": "none", "uc": True, "ra": "controlling"},
     {"cls": "request", "auth": "none", "uc": True, "ra": "none"},
     {"cls": "request", "auth": "none", "uc": False, "ra": "controlled"},
@@ -111,21 +156,29 @@ def run(chk, replay=None):
             b.setdefault("kind", "script")
         gst = {}
     else:
-        behs, gst = vf.tlc_gen("IceGen.tla", "IceGenTour.cfg" if quick else "IceGenFull.cfg", steps_key=None)
-        packed, mx, nloops = pack(behs, rnd, 0.2 if quick else 1.0)
+        behs, gst = vf.tlc_gen("IceGen.tla", "IceGenTour.cfg", steps_key=None)
+        # quick: a covering sample of the attacker's alphabet in every state; thorough: the whole alphabet in
+        # every state of the tour model, plus the covering sample in every state of the larger model
+        packed, mx, nloops, tour = pack(behs, rnd, 6 if quick else "all", frontier=not quick)
+        gst["tour"] = tour
         if not quick:
+            behs2, gst2 = vf.tlc_gen("IceGen.tla", "IceGenFull.cfg", steps_key=None)
+            packed2, mx2, nloops2, tour2 = pack(behs2, rnd, 6)
+            gst["full"] = dict(gst2, tour=tour2)
+            nloops += nloops2
             # behaviours that wait for the component's 500 ms timer cost real time: a seeded sample of them
-            ticky = [b for b in mx if any(s["a"] == "Tick" for s in b["steps"])]
-            keep = set(id(b) for b in rnd.sample(ticky, min(60, len(ticky))))
-            mx = [b for b in mx if id(b) in keep or not any(s["a"] == "Tick" for s in b["steps"])]
-            packed = [b for b in packed if not any(s["a"] == "Tick" for s in b["steps"])] + \
-                     rnd.sample([b for b in packed if any(s["a"] == "Tick" for s in b["steps"])],
-                                min(20, len([b for b in packed if any(s["a"] == "Tick" for s in b["steps"])])))
+            def ticky(b):
+                return any(s["a"] == "Tick" for s in b["steps"])
+            tm = [b for b in mx2 if ticky(b)]
+            tp = [b for b in packed2 if ticky(b)]
+            mx = vf.maximal_behaviours(mx + [b for b in mx2 if not ticky(b)]) + rnd.sample(tm, min(60, len(tm)))
+            packed = packed + [b for b in packed2 if not ticky(b)] + rnd.sample(tp, min(20, len(tp)))
         sim = []
         if not quick:
             # random walks beyond the tour's bounds (more checks, longer histories)
-            sim, gst["simulate"] = vf.tlc_simulate("IceGen.tla", "IceGenSim.cfg", num=120, depth=40, seed=chk.seed)
-            sim = [{"ctl": b["ctl"], "steps": b["steps"]} for b in sim]
+            sim, gst["simulate"] = vf.tlc_simulate("IceGen.tla", "IceGenSim.cfg", num=120, depth=40, seed=chk.seed, steps_key=None)
+            sim = vf.maximal_behaviours([{"ctl": b["ctl"], "steps": b["steps"]} for b in sim if "steps" in b])
+            gst["simulate"]["behaviours"] = len(sim)
         execs = []
         for i, b in enumerate(packed + mx + sim):
             b["case"] = "s%d" % i
